@@ -220,8 +220,16 @@ def run_block(stmts, env):
             run_block(st.body if _ev_ext(st.test, env) else st.orelse, env)
         elif isinstance(st, ast.Expr) and isinstance(st.value, ast.Constant):
             continue
-        elif isinstance(st, ast.Pass):
-            continue
+        elif isinstance(st, (ast.Pass, ast.Assert)):
+            continue                    # assertions state preconditions of the caller's abstract inputs
+        elif isinstance(st, ast.Expr) and isinstance(st.value, ast.Call):
+            _ev_ext(st.value, env)      # a call for its effect on a caller-modelled object (e.g. a logger stub)
+        elif isinstance(st, ast.FunctionDef):
+            def _closure(*a, _fn=st, _env=env):
+                e2 = dict(_env)
+                e2.update({p.arg: v for p, v in zip(_fn.args.args, a)})
+                return run_function(_fn, e2)
+            env[st.name] = _closure
         else:
             raise Unknown(ast.unparse(st)[:60])
     return env
